@@ -776,21 +776,29 @@ def c20_geometry(case):
         problems.append("lambert_equal_area: squared radius != 1 - |z| or azimuth changed")
     cl = np.array([0.2, 0.1, 0.97]) + 0.05 * rng.normal(size=(12, 3))
     cl /= np.linalg.norm(cl, axis=1)[:, None]
-    for kernel, fn_ in stats.SPHERICAL_COUNTING_KERNELS.items():
-        gs = 15
-        Xg, Yg, T = stats.point_density(cl[:, 0], cl[:, 1], cl[:, 2], gridsteps=gs, kernel=kernel)
+    one = np.array([[0.36, 0.48, 0.8]])
+    many = np.random.default_rng(21).normal(size=(200, 3))
+    many /= np.linalg.norm(many, axis=1)[:, None]
+    # data sets x scalar weights (small weights make the raw grid mean negative) x axial / non-axial x grid sizes
+    for (kernel, fn_), (dlabel, dat), w, axial, gs in it.product(stats.SPHERICAL_COUNTING_KERNELS.items(), (("clustered", cl), ("single datum", one), ("200 random", many)),
+                                                           (1, 0.5, 3.0, 1e-3, 1 / 200), (True, False), (15, 8)):
+        if gs == 8 and (w != 0.5 or dlabel != "clustered"):
+            continue
+        with np.errstate(all="ignore"):
+            Xg, Yg, T = stats.point_density(dat[:, 0], dat[:, 1], dat[:, 2], gridsteps=gs, kernel=kernel, weights=w, axial=axial)
         rho, h = np.mgrid[-np.pi:np.pi:gs * 1j, -1:1:gs * 1j]
         xc, yc, zc = geo.to_cartesian(np.pi / 2 - rho.ravel(), np.pi / 2 - np.arcsin(h).ravel())
         tot = np.empty(len(xc))
         for i, c in enumerate(np.column_stack([xc, yc, zc])):
-            dens, scale = fn_(np.abs(cl @ c), axial=True)
-            tot[i] = (dens.sum() - 0.5) / scale
-        if tot.mean() == 0:
-            continue  # no grid node counts any datum: the normalisation the property speaks of does not exist (outside the claim)
+            pr = dat @ c
+            dens, scale = fn_(np.abs(pr) if axial else pr, axial=axial)
+            tot[i] = ((dens * w).sum() - 0.5) / scale
+        if not np.all(np.isfinite(tot)) or abs(tot.mean()) < 1e-12:
+            continue  # no grid node counts any datum / degenerate kernel scale: the normalisation the property speaks of does not exist (outside the claim)
         want = tot / tot.mean()
         want[want < 0] = 0
         if not np.allclose(T.ravel(), want, rtol=1e-9, atol=1e-12):
-            problems.append(f"point_density[{kernel}]: not (raw estimate / grid mean) with negatives clipped afterwards (max diff {np.abs(T.ravel() - want).max():.2e})")
+            problems.append(f"point_density[{kernel}, {dlabel}, weight {w:g}, axial={axial}]: not (raw estimate / grid mean) with negatives clipped afterwards (max diff {np.abs(T.ravel() - want).max():.2e})")
     # axial and non-axial data, few and many data: estimates finite, non-negative, grid mean 1 before clipping
     for kernel, axial, n in it.product(stats.SPHERICAL_COUNTING_KERNELS, (True, False), (3, 40, 100, 150)):
         if kernel == "schmidt_count" and n < 100:
